@@ -751,16 +751,21 @@ def run_special_outputs(root, tag, compiler):
 
 # ------------------------------------------------------------------------------------------------ an entry that cannot be evicted
 def run_evict_undeletable(root, tag, compiler):
-    """a tiny size limit, and the oldest entry replaced by a non-empty directory behind the server's back: when the server wants to evict it the removal
-    fails.  Every later request must still be answered like a direct compile and the server must keep answering (statistics included)."""
+    """the oldest entry replaced by a non-empty directory behind the server's back, and a size limit that holds one entry and a half: the next store
+    has to evict exactly that entry and cannot.  Every later request must still be answered like a direct compile, in time, and the server must
+    keep answering (statistics included); once the directory is gone the entry is re-populated."""
     d = os.path.join(root, 'evict'); shutil.rmtree(d, ignore_errors=True); w = os.path.join(d, 'w'); os.makedirs(w)
     body = lambda i: f'int f{i}(int n) {{ int s = 0; for (int k = 0; k < n; k++) s += k * {i + 3}; return s; }}\n'
-    sc = Sc(os.path.join(d, 'sc'), tag, env={'SCCACHE_CACHE_SIZE': '3K', 'SCCACHE_DIRECT': 'false'}); sc.start(); fails = []; trace = []; reqs = 0
+    sc = Sc(os.path.join(d, 'sc'), tag, env={'SCCACHE_DIRECT': 'false'}); sc.start(); fails = []; trace = []; reqs = 0; entries = []
     try:
         def req(i, note):
             nonlocal reqs
             open(os.path.join(w, f's{i}.c'), 'w').write(body(i)); out = os.path.join(w, f's{i}.o')
-            r = sc.compile([compiler, '-O1', '-c', f's{i}.c', '-o', f's{i}.o'], w); reqs += 1
+            if os.path.exists(out): os.remove(out)
+            try: r = sc.compile([compiler, '-O1', '-c', f's{i}.c', '-o', f's{i}.o'], w, timeout=40); reqs += 1
+            except subprocess.TimeoutExpired:
+                trace.append(f'{note}: s{i}.c -> no answer within 40 s')
+                fails.append({'kind': 'request_hangs', 'detail': f'entry that cannot be evicted: [{note}] got no answer within 40 s (the direct compile takes milliseconds)', 'ops': list(trace)}); sc.kill(); return False
             got = (r.returncode, file_state(out) and file_state(out)[0])
             dr = subprocess.run([compiler, '-O1', '-c', f's{i}.c', '-o', f'd{i}.o'], cwd=w, capture_output=True); want = (dr.returncode, file_state(os.path.join(w, f'd{i}.o'))[0])
             st_ok = sc.stats() is not None
@@ -768,17 +773,24 @@ def run_evict_undeletable(root, tag, compiler):
             if got != want: fails.append({'kind': 'differs_from_direct', 'detail': f'entry that cannot be evicted: [{note}] gave rc={got[0]}, the direct compile rc={want[0]} (objects equal: {got[1] == want[1]}); stderr {r.stderr[:150]!r}', 'ops': list(trace)})
             elif not st_ok: fails.append({'kind': 'server_stopped_answering', 'detail': f'entry that cannot be evicted: after [{note}] the server does not answer --show-stats any more', 'ops': list(trace)})
             return not fails
-        req(0, 'first entry')
-        entries = [os.path.join(dp, f) for dp, dn, fn in os.walk(sc.cache) for f in fn if len(f) == 64]
-        for e in entries:
-            os.remove(e); os.makedirs(os.path.join(e, 'sub')); open(os.path.join(e, 'sub', 'x'), 'w').write('x')
-        trace.append(f'{len(entries)} result entr(y/ies) replaced by a non-empty directory')
-        for i in range(1, 12):
-            if not req(i, f'compile {i} (the size limit forces evictions)'): break
+        req(0, 'measuring one entry')
+        sizes = [os.path.getsize(os.path.join(dp, f)) for dp, dn, fn in os.walk(sc.cache) for f in fn if len(f) == 64]
+        sc.stop(); shutil.rmtree(sc.cache, ignore_errors=True)
+        sc.env['SCCACHE_CACHE_SIZE'] = str(int(max(sizes) * 1.5)) if sizes else '2K'; sc.start(); trace.append(f'server restarted with a size limit of {sc.env["SCCACHE_CACHE_SIZE"]} bytes (one entry is {max(sizes) if sizes else "?"})')
+        if req(0, 'first entry'):
+            entries = [os.path.join(dp, f) for dp, dn, fn in os.walk(sc.cache) for f in fn if len(f) == 64]
+            for e in entries:
+                os.remove(e); os.makedirs(os.path.join(e, 'sub')); open(os.path.join(e, 'sub', 'x'), 'w').write('x')
+            trace.append(f'{len(entries)} result entr(y/ies) replaced by a non-empty directory')
+            ok = True
+            for i in (1, 2, 1, 3):
+                if not req(i, f'compile s{i}.c (its store has to evict)'): ok = False; break
+            if ok:
+                for e in entries: shutil.rmtree(e, ignore_errors=True)
+                trace.append('the directories are removed again'); req(0, 'first source again'); req(0, 'and once more')
     finally:
         sc.stop(); shutil.rmtree(d, ignore_errors=True)
-    return {'requests': reqs, 'entries_made_undeletable': len(entries), 'fails': fails[:2], 'samples': [' ; '.join(trace)[:500]]}
-
+    return {'requests': reqs, 'entries_made_undeletable': len(entries), 'fails': fails[:2], 'samples': [' ; '.join(trace)[:600]]}
 
 # ------------------------------------------------------------------------------------------------ options whose place on the command line matters
 def run_option_order(root, tag, compiler):
